@@ -181,10 +181,14 @@ ROWS = [
     R("backup", "%option backup", ["-b"], [("file", "lex.backup")]),
     R("tables-file", '%option tables-file="probe.tbl"', ["--tables-file=probe.tbl"], [("file", "probe.tbl")]),
     R("header-file", '%option header-file="probe.h"', ["--header-file=probe.h"],
-      [("file", "probe.h"), ("header_ok", "probe.h")]),
+      [("file", "probe.h"), ("header_ok", "probe.h")],
+      base={"code": "int helper3(void) { return 7; }\n"}),
     R("header-file-reentrant", '%option reentrant header-file="probe.h"', None,
       [("file", "probe.h"), ("header_ok_r", "probe.h")], without_opt="%option reentrant",
-      base={"code": RMAIN}),
+      base={"code": "int helper3(void) { return 7; }\n"}),
+    R("header-file-c99", '%option emit="c99" header-file="probe.h"', None,
+      [("file", "probe.h"), ("header_ok_c99", "probe.h")], without_opt='%option emit="c99"',
+      base={"code": "int helper3(void) { return 7; }\n"}),
     R("outfile", '%option outfile="named.c"', None, [("file", "named.c")], no_o=True),
     R("stdout", "%option stdout", ["-t"], [("stdout_has", "yylex")], no_o=True),
     R("c++", "%option c++", ["-+"], [("output_has", "yyFlexLexer::yylex")], lang="c++",
@@ -321,25 +325,36 @@ def probe(flex, b, p):
         return os.path.exists(fp) and os.path.getsize(fp) > 0
     if k == "stdout_has":
         return p[1].encode() in b.stdout
-    if k in ("header_ok", "header_ok_r"):
+    if k in ("header_ok", "header_ok_r", "header_ok_c99"):
         h = os.path.join(b.dir, p[1])
-        if not os.path.exists(h):
+        if not os.path.exists(h) or not b.obj:
             return False
-        # self-contained: compiles alone; declares the API: a second unit calls it and links
+        # the realistic use: another unit of the same program includes the header, calls the
+        # API it declares and is linked with the scanner (whose user-code section defines
+        # helper3); so the header must be self-contained, declare the API, and define nothing
         t = os.path.join(b.dir, "use.c")
         if k == "header_ok":
-            util.write(t, '#include "%s"\nint use(void) { yybuffer b = yy_scan_string("a"); int r = yylex(); '
-                          'yy_delete_buffer(b); yylex_destroy(); return r + yyleng + (yytext != 0) + (yyin == 0); }\n' % p[1])
+            body = ('yybuffer b = yy_scan_string("aa b"); int r = yylex(); r += yyleng + (yytext != 0) + '
+                    '(yyin == 0); yy_delete_buffer(b); yylex_destroy();')
         else:
-            util.write(t, '#include "%s"\nint use(void) { yyscan_t s; int r; if (yylex_init(&s)) return 1; '
-                          'yy_scan_string("a", s); r = yylex(s); r += yyget_leng(s); yylex_destroy(s); return r; }\n' % p[1])
+            body = ('yyscan_t s; int r; if (yylex_init(&s)) return 1; yy_scan_string("aa b", s); r = yylex(s); '
+                    'r += yyget_leng(s) + (yyget_text(s) != 0) + (yyget_in(s) == 0); yylex_destroy(s);')
+        util.write(t, '#include "%s"\n#include <stdio.h>\nextern int helper3(void);\n'
+                      'int main(void) { %s printf("%%d %%d\\n", r, helper3()); return 0; }\n' % (p[1], body))
         c = util.run(["gcc", "-Wall", "-Werror=implicit-function-declaration", "-c", t, "-o", t + ".o"],
                      cwd=b.dir, env=util.clean_env(), timeout=60)
-        if c.rc != 0 or not b.obj:
+        if c.rc != 0:
             b.cc_err += c.err.decode("latin1")
             return False
-        l = util.run(["gcc", "-o", os.path.join(b.dir, "use.exe"), "-Wl,--unresolved-symbols=report-all",
-                      "-shared", "-fPIC", t + ".o"], cwd=b.dir, env=util.clean_env(), timeout=60)
+        exe = os.path.join(b.dir, "use.exe")
+        l = util.run(["gcc", "-o", exe, t + ".o", b.obj], cwd=b.dir, env=util.clean_env(), timeout=60)
+        if l.rc != 0:
+            b.cc_err += l.err.decode("latin1")
+            return False
+        x = util.run([exe], cwd=b.dir, env=util.clean_env(), timeout=20)
+        if x.rc != 0 or x.out.decode("latin1").split() != ["5", "7"]:
+            b.cc_err += "program using the header printed %r (exit %s)" % (x.out, x.rc)
+            return False
         return True
     raise ValueError(k)
 
